@@ -2,6 +2,11 @@
 open C19_model
 open Conv
 
+(* MISMATCH lines are printed after all PROPFAIL lines: lib/check.py attaches case lines to the first
+   2000 findings only, and a property failure must keep its case *)
+let deferred : (int * string) list ref = ref []
+let mismatch (id : int) (what : string) = incr n_mismatch; deferred := (id, what) :: !deferred
+
 (* decimal strings <-> extracted Z, beyond the range of OCaml's int (nanoseconds since year 1,
    ticks up to 2^63-1) *)
 let z_of_string (s : string) : z =
@@ -154,7 +159,7 @@ let () =
         if not (listed greg e) then
           propfail id ("commit " ^ string_of_z (fst e).c_hash ^ " got tick " ^ string_of_z (snd e) ^ " but is not listed under it: " ^ show_reg greg)) evs;
       let positive = (match d with Zpos _ -> true | _ -> false) in
-      match shape (effective ops outs) with
+      match shape ops outs with
       | Some c0 when positive && evs <> [] ->
           count "in_domain";
           let t0 = spec_t0 c0.c_when d in
@@ -178,4 +183,5 @@ let () =
                              ^ string_of_int (int_of_nat (reg_count greg (fst e).c_hash)) ^ " times: " ^ show_reg greg)) evs
           end else if List.exists (fun e -> int_of_nat (reg_count greg (fst e).c_hash) > 1) evs then count "listed_more_than_once"
       | _ -> count "outside_domain"
-    end)
+    end);
+  List.iter (fun (id, what) -> Printf.printf "MISMATCH %d %s\n" id what) (List.rev !deferred)
